@@ -252,6 +252,14 @@ func (c *monC12) After(m *Machine, s *Step) *Violation {
 				c.lastTOTP[who] = "" // a rejected code was recorded as last code: any later code is 'different'
 			}
 		}
+	case "totpconfirm":
+		// the code that confirmed an enrolment counts as that account's last accepted code
+		who := r.UIDBefore()
+		pre, ok := s.Pre.Users[who]
+		if ok && m.C.Cfg.OneTimeTOTP && s.Post.Users[who].TOTPSecretKey != "" && s.Post.Users[who].TOTPSecretKey != pre.TOTPSecretKey {
+			c.lastTOTP[who] = strings.TrimSpace(s.Secret)
+			m.flag("used:totp-enrolment")
+		}
 	case "regen":
 		who := r.UIDBefore()
 		if _, ok := s.Pre.Users[who]; ok && s.Pre.Users[who].RecoveryCodes != s.Post.Users[who].RecoveryCodes {
@@ -291,7 +299,7 @@ func (c *monC12) End(m *Machine) *Violation {
 var kindsC12 = []wk{
 	{"otplogin", 22}, {"otpadd", 10}, {"otpclear", 2}, {"login", 12}, {"totpvalidate", 12}, {"smsvalidate", 12}, {"smsresend", 3},
 	{"regen", 1}, {"newsess", 5}, {"logout", 4}, {"advance", 4}, {"totpremove", 2}, {"smsremove", 2},
-	{"snip:otp", 14}, {"snip:2fa", 8}, {"snip:rec2fa", 10},
+	{"snip:otp", 14}, {"snip:2fa", 8}, {"snip:rec2fa", 10}, {"snip:enrolreplay", 3},
 }
 
 var profC12 = profile{
